@@ -162,7 +162,15 @@ pub fn dash_path(path: &Path, dash_array: &[f32], mut dash_offset: f32) -> Path 
 
                     if state.on {
                         if first_dash {
-                            // If we're still on the first dash we can just close
+                            // If we're still on the first dash the whole subpath is one closed
+                            // outline. Its points were buffered as the initial segment, emit them
+                            // and close.
+                            if initial_segment.len() > 0 {
+                                dashed.move_to(initial_segment[0].x, initial_segment[0].y);
+                                for i in 1..initial_segment.len() {
+                                    dashed.line_to(initial_segment[i].x, initial_segment[i].y);
+                                }
+                            }
                             dashed.close();
                         } else {
                             if initial_segment.len() > 0 {
